@@ -99,7 +99,30 @@ def spd_scaled_extreme(rng, n):
     return symmetrize([[A[i][j] * sc for j in range(n)] for i in range(n)])
 
 
-SPD_FAMILIES = [("weak_coupling", spd_weak_coupling), ("scaled_extreme", spd_scaled_extreme), ("sparse_pattern", spd_sparse_pattern), ("random", spd_random), ("graded", spd_graded), ("hilbert", spd_hilbert), ("integer", spd_integer),
+def spd_exact_cholesky(rng, n):
+    """A = R^T R with an upper triangular R of small integers and dyadic numbers: every pivot is an exactly representable square, the whole
+    decomposition is exact in f64. Pivot coincidences on purpose: products that are exactly 1 (2 x 1/2), first pivot = last pivot with others
+    in between, pivots exactly 1 after coupled non-unit ones, constant diagonals"""
+    mode = rng.choice(["product_one", "first_eq_last", "unit_after", "constant", "free"])
+    diag = [rng.choice([1.0, 2.0, 3.0, 4.0, 0.5, 0.25, 1.5]) for _ in range(n)]
+    if mode == "product_one" and n >= 2:
+        diag = [rng.choice([2.0, 4.0, 0.5, 0.25]) for _ in range(n)]
+        prod = 1.0
+        for d in diag[:-1]:
+            prod *= d
+        diag[-1] = 1.0 / prod
+    elif mode == "first_eq_last" and n >= 3:
+        diag[-1] = diag[0]
+        diag[rng.randrange(1, n - 1)] = diag[0] + 1.0
+    elif mode == "unit_after" and n >= 2:
+        diag[0] = rng.choice([2.0, 3.0, 4.0]); diag[rng.randrange(1, n)] = 1.0
+    elif mode == "constant":
+        diag = [rng.choice([1.0, 2.0, 0.5])] * n
+    R = [[(diag[i] if i == j else (float(rng.choice([-2, -1, 0, 1, 1, 2])) * rng.choice([1.0, 0.5]) if j > i else 0.0)) for j in range(n)] for i in range(n)]
+    return [[sum(R[k][i] * R[k][j] for k in range(n)) for j in range(n)] for i in range(n)]
+
+
+SPD_FAMILIES = [("exact_cholesky", spd_exact_cholesky), ("weak_coupling", spd_weak_coupling), ("scaled_extreme", spd_scaled_extreme), ("sparse_pattern", spd_sparse_pattern), ("random", spd_random), ("graded", spd_graded), ("hilbert", spd_hilbert), ("integer", spd_integer),
                 ("graph", spd_graph_like), ("near_degenerate", spd_near_degenerate)]
 
 
